@@ -156,19 +156,19 @@ impl Universe {
                 keys.push(Key::Origin { v6: false, addr: addr as u128, plen, maxlen, asn: 64496 + t.choose(4) as u32 });
             }
         }
-        let n_keys = t.choose(4);
+        let n_keys = if big { t.choose(30) } else { t.choose(4) };
         for i in 0..n_keys {
             let mut ski = [0u8; 20];
             ski[0] = i as u8;
             ski[19] = t.choose(256) as u8;
-            let n = *t.pick(&[0usize, 1, 33, 91, 200]);
+            let n = *t.pick(&[0usize, 1, 33, 91, 200, 255, 256, 1024]);
             keys.push(Key::RouterKey {
                 ski,
                 asn: 64500 + t.choose(3) as u32,
                 spki: (0..n).map(|j| (j as u8).wrapping_mul(3).wrapping_add(i as u8)).collect(),
             });
         }
-        let n_aspa = t.choose(4);
+        let n_aspa = if big { t.choose(30) } else { t.choose(4) };
         for i in 0..n_aspa {
             keys.push(Key::Aspa { customer: 65000 + i as u32 });
         }
@@ -180,6 +180,8 @@ impl Universe {
             vec![65100, 65101],
             vec![65101, 65102, 65103],
             (0..40).map(|i| 65200 + i).collect(),
+            (0..256).map(|i| 70000 + i).collect(),
+            (0..300).map(|i| 80000 + 3 * i).collect(),
         ];
         Universe { keys, provider_sets, big }
     }
